@@ -128,6 +128,77 @@ def check_script(ns, res, script, origin):
     return npos
 
 
+def check_commented(ns, res, r, script, origin, nvariants=3):
+    """The same question with a comment between the operator and the first
+    argument of one term (the reader keeps comments as children): the term
+    and every term above it still have the sorts they have."""
+    import copy
+    nested = script.nested()
+    pos = {path: term for path, term in script.positions()}
+    compound = [p for p, t in pos.items() if t.leaf is None]
+    if not compound:
+        return
+    dtnames, unames = set(), set()
+    for c in nested:
+        if c[0] == 'declare-datatype':
+            dtnames.add(c[1])
+        elif c[0] == 'declare-datatypes':
+            dtnames.update(x[0] for x in c[1])
+        elif c[0] == 'declare-sort':
+            unames.add(c[1])
+    for _ in range(nvariants):
+        p = r.choice(compound)
+        n2 = copy.deepcopy(nested)
+        lst = gen_smt.get_path(n2, p)
+        if not isinstance(lst, list) or len(lst) < 2:
+            continue
+        lst.insert(1, r.choice(['; c\n', ';\n', '; (not a term) "x\n']))
+        text = refreader.render(n2)
+        exprs = list(ns.nodeio.parse_smtlib(text))
+        if refmodel.to_nested_list(exprs) != n2:
+            res.count('commented_variants_read_differently')
+            continue
+        try:
+            ns.smtlib.collect_information(exprs)
+        except Exception as e:  # noqa
+            res.count('commented_variants_collect_raises')
+            res.add_set('exceptions', f'collect:commented:{type(e).__name__}')
+            continue
+        res.count('commented_variants')
+        for k in range(len(p), 1, -1):
+            q = p[:k]
+            term = pos.get(q)
+            if term is None:
+                continue
+            node = node_at(exprs, q)
+            res.count('evaluations')
+            try:
+                got = ns.smtlib.get_sort(node)
+            except Exception as e:  # noqa
+                res.add_set('exceptions',
+                            f'get_sort:commented:{type(e).__name__}')
+                continue
+            if got is None:
+                res.count('sort_unknown')
+                continue
+            gn = refmodel.to_nested(got)
+            gs = gen_smt.sort_from_nested(gn, dtnames, unames)
+            if gs == term.sort:
+                res.count('sort_right_with_comment')
+                continue
+            op = term.op or '?'
+            res.violation(
+                f'sort:comment-between-children:{op}',
+                f'with a comment after the operator of '
+                f'{refreader.render([pos[p].nested()]).strip()[:80]}, '
+                f'get_sort of the {op} term at {q} = {gn!r} but the term '
+                f'has sort {gen_smt.sort_nested(term.sort, False)!r}', {
+                    'script': text, 'origin': origin, 'path': list(q),
+                    'commented_path': list(p), 'inferred': gn,
+                    'true_sort': gen_smt.sort_nested(term.sort, False)})
+            break
+
+
 class _Deferred:
     """Proxy for ShardResult that defers violations."""
 
@@ -496,6 +567,8 @@ def shard(args):
         script = gen_smt.random_script(r, max_bv=r.choice([4, 8, 8, 16]),
                                        names=style)
         npos = check_script(ns, res, script, f'{args["shard"]}:{i}')
+        if i % 2 == 0:
+            check_commented(ns, res, r, script, f'{args["shard"]}:{i}')
         res.count('scripts')
         res.count(f'scripts_names_{style}')
         if npos >= 3:
